@@ -2,7 +2,8 @@
 
   BUILD    the three feature sets (and both without std) type-check
   TWIN     for each of write, flush, read, fill_buf, consume: the event skeleton (ordered in-crate
-           calls with argument provenance, the &[u8] reads, returned value) of the embedded_io impl
+           calls with argument provenance, the &[u8] reads, the branch conditions in canonical positive
+           form, returned value) of the embedded_io impl
            and of the embedded_io_async impl equals that of the std::io impl, modulo the reviewed
            renaming {std::io::Read for &[u8] <-> embedded_io(_async)::Read for &[u8]; await
            scaffolding collapsed; io::Result <-> Result<_, Infallible>}     [twin]
@@ -72,13 +73,15 @@ def rewrite_for(upvars):
 
 def skel(f, upvars=None):
     pname = (lambda n: f.local_name(n)) if not upvars else (lambda n: "state%d" % n)
-    ev = skeleton.events(f, rename, rewrite=rewrite_for(upvars), pname=pname)
+    ev = skeleton.events(f, rename, rewrite=rewrite_for(upvars), pname=pname, guards=True)
     out = []
     for k, t in ev:
         if k == "yield":
             continue
         if k == "call" and (t.startswith("@skip") or t.startswith("<core::result::Result") and "branch" in t):
             continue
+        if k == "guard" and out and out[-1] == (k, t):
+            continue  # the `Poll::Ready` test of an await, right before the `?` test of the value it yields
         out.append((k, t))
     return out
 
